@@ -229,7 +229,7 @@ impl Action {
             redirect_code => Some(StatusCodeUpdate {
                 status_code: redirect_code,
                 on_response_status_codes: on_response_status_codes.clone(),
-                exclude_response_status_codes: rule.source.exclude_response_status_codes.is_some(),
+                exclude_response_status_codes: rule.source.exclude_response_status_codes.unwrap_or(false),
                 fallback_status_code: 0,
                 rule_id: Some(rule.id.clone()),
                 fallback_rule_id: None,
@@ -267,7 +267,7 @@ impl Action {
                         None => Vec::new(),
                         Some(on_response) => on_response.clone(),
                     },
-                    exclude_response_status_codes: rule.source.exclude_response_status_codes.is_some(),
+                    exclude_response_status_codes: rule.source.exclude_response_status_codes.unwrap_or(false),
                     rule_id: Some(rule.id.clone()),
                 })
             }
@@ -284,7 +284,7 @@ impl Action {
                         target_hash: filter.target_hash.clone(),
                     },
                     on_response_status_codes: on_response_status_codes.clone(),
-                    exclude_response_status_codes: rule.source.exclude_response_status_codes.is_some(),
+                    exclude_response_status_codes: rule.source.exclude_response_status_codes.unwrap_or(false),
                     rule_id: Some(rule.id.clone()),
                 });
             }
@@ -317,7 +317,7 @@ impl Action {
                         }),
                     },
                     on_response_status_codes: on_response_status_codes.clone(),
-                    exclude_response_status_codes: rule.source.exclude_response_status_codes.is_some(),
+                    exclude_response_status_codes: rule.source.exclude_response_status_codes.unwrap_or(false),
                     rule_id: Some(rule.id.clone()),
                 });
             }
@@ -330,7 +330,7 @@ impl Action {
             rule_ids: LinkedHashSet::from_iter(vec![rule.id.clone()]),
             rule_traces: vec![RuleTrace {
                 on_response_status_codes: on_response_status_codes.clone(),
-                exclude_response_status_codes: rule.source.exclude_response_status_codes.is_some(),
+                exclude_response_status_codes: rule.source.exclude_response_status_codes.unwrap_or(false),
                 id: rule.id.clone(),
             }],
             rules_applied: LinkedHashSet::new(),
@@ -338,7 +338,7 @@ impl Action {
                 log_override,
                 rule_id: Some(rule.id.clone()),
                 on_response_status_codes: on_response_status_codes.clone(),
-                exclude_response_status_codes: rule.source.exclude_response_status_codes.is_some(),
+                exclude_response_status_codes: rule.source.exclude_response_status_codes.unwrap_or(false),
                 fallback_log_override: None,
                 fallback_rule_id: None,
                 unit_id: rule.configuration_log_unit_id.clone(),
